@@ -335,6 +335,289 @@ Section EciesTheorems.
 End EciesTheorems.
 
 (* ------------------------------------------------------------------ *)
+(* exact acceptance and symbolic binding                                *)
+(* ------------------------------------------------------------------ *)
+Section EciesAcceptance.
+  Variable ec_dh : curve -> bytes -> bytes -> option bytes.
+  Variable ec_pub : curve -> bytes -> option bytes.
+  Variable ec_oncurve : curve -> bytes -> bytes -> bool.
+  Variable ec_decompress : curve -> bytes -> option bytes.
+  Variable hkdf : hash -> bytes -> bytes -> bytes -> nat -> bytes.
+  Variable gcm_seal : bytes -> bytes -> bytes -> bytes -> bytes.
+  Variable gcm_open : bytes -> bytes -> bytes -> bytes -> option bytes.
+  Variable aes_ctr : bytes -> bytes -> bytes -> bytes.
+  Variable hmac_sha256 : bytes -> bytes -> bytes.
+  Variable siv_seal : bytes -> bytes -> bytes -> bytes.
+  Variable siv_open : bytes -> bytes -> bytes -> option bytes.
+
+  Notation Encapsulate := (ecies_encapsulate ec_dh ec_pub ec_oncurve hkdf).
+  Notation Decapsulate := (ecies_decapsulate ec_dh ec_oncurve ec_decompress hkdf).
+  Notation DemEncrypt := (dem_encrypt gcm_seal aes_ctr hmac_sha256 siv_seal).
+  Notation DemDecrypt := (dem_decrypt gcm_open aes_ctr hmac_sha256 siv_open).
+  Notation DemFrame := (dem_frame gcm_seal aes_ctr hmac_sha256 siv_seal).
+  Notation Encrypt := (ecies_encrypt ec_dh ec_pub ec_oncurve hkdf gcm_seal aes_ctr hmac_sha256 siv_seal).
+  Notation Decrypt := (ecies_decrypt ec_dh ec_oncurve ec_decompress hkdf gcm_open aes_ctr hmac_sha256 siv_open).
+  Notation Recompute := (ecies_recompute ec_dh ec_oncurve ec_decompress hkdf gcm_seal aes_ctr hmac_sha256 siv_seal).
+
+  Hypothesis ec_dh_comm : forall c a b A B,
+    ec_pub c a = Some A -> ec_pub c b = Some B -> ec_dh c a B = ec_dh c b A.
+  Hypothesis ec_pub_shape : forall c sk P, ec_pub c sk = Some P ->
+    length P = (1 + 2 * field_size c)%nat /\ hd 0 P = 4 /\
+    ec_oncurve c (coord_x c P) (coord_y c P) = true.
+  Hypothesis ec_decompress_compress : forall c x y,
+    ec_oncurve c x y = true -> length x = field_size c -> length y = field_size c ->
+    ec_decompress c ((if N.odd (last y 0) then 3 else 2) :: x) = Some (4 :: x ++ y).
+  Hypothesis gcm_open_seal : forall k iv ad p, gcm_open k iv ad (gcm_seal k iv ad p) = Some p.
+  Hypothesis gcm_open_sound : forall k iv ad c p, gcm_open k iv ad c = Some p -> c = gcm_seal k iv ad p.
+  Hypothesis gcm_seal_len : forall k iv ad p, length (gcm_seal k iv ad p) = (length p + 16)%nat.
+  Hypothesis aes_ctr_involutive : forall k iv x, aes_ctr k iv (aes_ctr k iv x) = x.
+  Hypothesis hmac_len : forall k m, length (hmac_sha256 k m) = 32%nat.
+  Hypothesis siv_open_seal : forall k ad p, siv_open k ad (siv_seal k ad p) = Some p.
+  Hypothesis siv_open_sound : forall k ad c p, siv_open k ad c = Some p -> c = siv_seal k ad p.
+  Hypothesis hkdf_len : forall h ikm salt info n, length (hkdf h ikm salt info n) = n.
+
+  Definition dem_supported (d : dem) : bool := match d with XCHACHA20_POLY1305 => false | _ => true end.
+
+  Lemma key_split a key : (a <= length key)%nat ->
+    slice 0 a key = Ok (firstn a key) /\ slice a (length key) key = Ok (skipn a key).
+  Proof.
+    intros L. split.
+    - rewrite slice_in_range by lia. simpl. rewrite Nat.sub_0_r. reflexivity.
+    - rewrite slice_in_range by lia. rewrite firstn_all2; [reflexivity|rewrite skipn_length; lia].
+  Qed.
+
+  (* what dem_encrypt returns *)
+  Lemma dem_encrypt_frame d key iv p body :
+    DemEncrypt d key iv p = Ok body ->
+    body = DemFrame d key iv p /\ length key = dem_key_size d /\ dem_supported d = true.
+  Proof.
+    unfold dem_encrypt, dem_frame. intros H.
+    destruct (Nat.eqb_spec (length key) (dem_key_size d)) as [Lk|]; [|discriminate]. cbn [negb] in H.
+    destruct d; try discriminate.
+    1-2: (destruct (N.ltb _ _); [discriminate|]; split; [congruence|auto]).
+    - split; [congruence|auto].
+    - destruct (key_split (dem_aes_key_size AES128_CTR_HMAC_SHA256) key) as [S1 S2]; [rewrite Lk; simpl; lia|].
+      rewrite S1, S2 in H. cbn [bind] in H. split; [congruence|auto].
+    - destruct (key_split (dem_aes_key_size AES256_CTR_HMAC_SHA256) key) as [S1 S2]; [rewrite Lk; simpl; lia|].
+      rewrite S1, S2 in H. cbn [bind] in H. split; [congruence|auto].
+  Qed.
+
+  (* the encrypt-then-MAC DEM, generically in the AES key size a and the tag size t *)
+  Definition ctr_frame (a t : nat) (key iv p : bytes) : bytes :=
+    let ct := iv ++ aes_ctr (firstn a key) iv p in
+    ct ++ firstn t (hmac_sha256 (skipn a key) ([] ++ ct ++ aad_size_in_bits [])).
+
+  Definition ctr_dec (a t : nat) (key ct : bytes) : outcome bytes :=
+    bind (slice 0 a key) (fun ka =>
+    bind (slice a (length key) key) (fun kh =>
+    if Nat.ltb (length ct) (16 + t) then Err else
+    bind (slice 0 (length ct - t) ct) (fun payload =>
+    bind (slice (length ct - t) (length ct) ct) (fun tag =>
+    let expected := firstn t (hmac_sha256 kh ([] ++ payload ++ aad_size_in_bits [])) in
+    if negb (beq expected tag) then Err else
+    if Nat.ltb (length payload) 16 then Err else
+    bind (slice 0 16 payload) (fun iv =>
+    bind (slice 16 (length payload) payload) (fun body =>
+    Ok (aes_ctr ka iv body))))))).
+
+  Lemma ctr_dec_iff a t key body p : (a <= length key)%nat -> (t <= 32)%nat ->
+    (ctr_dec a t key body = Ok p <-> exists iv, length iv = 16%nat /\ body = ctr_frame a t key iv p).
+  Proof.
+    intros La Lt. unfold ctr_dec. destruct (key_split a key La) as [S1 S2]. rewrite S1, S2. cbn [bind].
+    split.
+    - destruct (Nat.ltb_spec (length body) (16 + t)) as [|Lb]; [discriminate|].
+      assert (Lb' : (length body - t <= length body)%nat) by lia.
+      destruct (slice_split (length body - t) body Lb') as (payload & tag & E & Lp & S3 & S4).
+      rewrite S3, S4. cbn [bind].
+      destruct (beq _ tag) eqn:Eb; [|discriminate]. apply beq_eq in Eb. cbn [negb].
+      destruct (Nat.ltb_spec (length payload) 16) as [|Lp16]; [discriminate|].
+      destruct (slice_split 16 payload Lp16) as (iv & c & Ep & Liv & S5 & S6).
+      rewrite S5, S6. cbn [bind]. intros H. injection H as <-.
+      exists iv. split; [exact Liv|].
+      unfold ctr_frame. rewrite aes_ctr_involutive. rewrite <- Ep. rewrite Eb. exact E.
+    - intros (iv & Liv & ->). unfold ctr_frame.
+      set (ct := iv ++ aes_ctr (firstn a key) iv p).
+      set (tag := firstn t (hmac_sha256 (skipn a key) ([] ++ ct ++ aad_size_in_bits []))).
+      assert (Ltag : length tag = t) by (unfold tag; rewrite firstn_length, hmac_len; lia).
+      assert (Lct : (16 <= length ct)%nat) by (unfold ct; rewrite app_length; lia).
+      destruct (Nat.ltb_spec (length (ct ++ tag)) (16 + t)) as [Hl|_]; [rewrite app_length in Hl; lia|].
+      replace (length (ct ++ tag) - t)%nat with (length ct) by (rewrite app_length; lia).
+      rewrite slice_head, slice_tail. cbn [bind]. fold tag. rewrite beq_refl. cbn [negb].
+      destruct (Nat.ltb_spec (length ct) 16) as [Hl|_]; [lia|].
+      assert (S5 : slice 0 16 ct = Ok iv) by (unfold ct; rewrite <- Liv; apply slice_head).
+      assert (S6 : slice 16 (length ct) ct = Ok (aes_ctr (firstn a key) iv p)) by (unfold ct; rewrite <- Liv; apply slice_tail).
+      rewrite S5, S6. cbn [bind]. rewrite aes_ctr_involutive. reflexivity.
+  Qed.
+
+  (* exact acceptance of the DEM *)
+  Lemma dem_decrypt_iff d key body p : length key = dem_key_size d -> dem_supported d = true ->
+    (DemDecrypt d key body = Ok p <-> exists iv, length iv = dem_iv_size d /\ body = DemFrame d key iv p).
+  Proof.
+    intros Lk Hs. unfold dem_decrypt.
+    destruct (Nat.eqb_spec (length key) (dem_key_size d)) as [_|Nk]; [|contradiction]. cbn [negb].
+    destruct d; try discriminate.
+    1-2: (
+      unfold dem_frame; split;
+      [ destruct (Nat.ltb_spec (length body) (12 + 16)) as [|Lb]; [discriminate|];
+        assert (Lb' : (12 <= length body)%nat) by lia;
+        destruct (slice_split 12 body Lb') as (iv & c & E & Liv & S1 & S2);
+        rewrite S1, S2; cbn [bind];
+        destruct (gcm_open key iv [] c) as [q|] eqn:Eo; [|discriminate];
+        intros H; injection H as <-; apply gcm_open_sound in Eo; exists iv; split; [exact Liv|congruence]
+      | intros (iv & Liv & ->); simpl in Liv;
+        set (g := gcm_seal key iv [] p);
+        assert (S1 : slice 0 12 (iv ++ g) = Ok iv) by (rewrite <- Liv; apply slice_head);
+        assert (S2 : slice 12 (length (iv ++ g)) (iv ++ g) = Ok g) by (rewrite <- Liv; apply slice_tail);
+        (destruct (Nat.ltb_spec (length (iv ++ g)) (12 + 16)) as [Hl|_];
+           [unfold g in Hl; rewrite app_length, gcm_seal_len in Hl; lia|]);
+        rewrite S1, S2; cbn [bind]; unfold g; rewrite gcm_open_seal; reflexivity ]).
+    - unfold dem_frame. split.
+      + destruct (siv_open key [] body) as [q|] eqn:Eo; [|discriminate]. intros H. injection H as <-.
+        apply siv_open_sound in Eo. exists []. split; [reflexivity|exact Eo].
+      + intros (iv & _ & ->). rewrite siv_open_seal. reflexivity.
+    - change (ctr_dec 16 16 key body = Ok p <-> exists iv, length iv = 16%nat /\ body = ctr_frame 16 16 key iv p).
+      apply (ctr_dec_iff 16 16 key body p); [rewrite Lk; simpl; lia|lia].
+    - change (ctr_dec 32 32 key body = Ok p <-> exists iv, length iv = 16%nat /\ body = ctr_frame 32 32 key iv p).
+      apply (ctr_dec_iff 32 32 key body p); [rewrite Lk; simpl; lia|lia].
+  Qed.
+
+  (* decapsulation, taken apart *)
+  Definition effective_salt (h : hash) (salt : bytes) : bytes :=
+    if Nat.eqb (length salt) 0 then zeros (hash_len h) else salt.
+
+  Lemma decapsulate_shape c h f salt info n skR kem key :
+    Decapsulate c h f salt info n skR kem = Ok key ->
+    length key = n /\ exists secret, key = hkdf h (kem ++ secret) (effective_salt h salt) info n.
+  Proof.
+    unfold ecies_decapsulate. intros H. inv_bind H. inv_bind Hb. rename v0 into secret.
+    unfold compute_hkdf in Hbb. destruct (Nat.ltb _ _); [discriminate|]. destruct (Nat.ltb _ _); [discriminate|].
+    assert (E : key = hkdf h (kem ++ secret) (effective_salt h salt) info n) by (unfold effective_salt; congruence).
+    split; [rewrite E; apply hkdf_len|exists secret; exact E].
+  Qed.
+
+  Lemma supported_dem c f d : primitive_supported c f d = true -> dem_supported d = true.
+  Proof. destruct c, f, d; simpl; intros; try discriminate; reflexivity. Qed.
+
+  (* the honest ciphertext, taken apart *)
+  Lemma ecies_encrypt_shape c h f d salt prefix skR pkR eph iv info pt ct :
+    ec_pub c skR = Some pkR ->
+    Encrypt c h f d salt prefix pkR eph iv info pt = Ok ct ->
+    exists kem key, encoding_size c f = Ok (length kem) /\
+      Decapsulate c h f salt info (dem_key_size d) skR kem = Ok key /\
+      primitive_supported c f d = true /\
+      ct = prefix ++ kem ++ DemFrame d key iv pt.
+  Proof.
+    intros Hpub H. unfold ecies_encrypt in H.
+    destruct (primitive_supported c f d) eqn:Ps; [|discriminate]. cbn [negb] in H.
+    inv_bind H. rename v into raw. injection Hb as <-.
+    unfold ecies_raw_encrypt in Ha. inv_bind Ha. destruct v as [kem key]. inv_bind Hab. rename v into body.
+    injection Habb as <-.
+    destruct (ecies_kem_law ec_dh ec_pub ec_oncurve ec_decompress hkdf ec_dh_comm ec_pub_shape ec_decompress_compress
+                _ _ _ _ _ _ _ _ _ _ _ Hpub Haa) as [Hd Hs].
+    apply dem_encrypt_frame in Haba. destruct Haba as (-> & Lk & Ds).
+    exists kem, key. repeat split; auto.
+  Qed.
+
+  Theorem ecies_decrypt_iff c h f d salt prefix skR ct info p : primitive_supported c f d = true ->
+    (Decrypt c h f d salt prefix skR ct info = Ok p <->
+     exists kem key iv, encoding_size c f = Ok (length kem) /\
+       Decapsulate c h f salt info (dem_key_size d) skR kem = Ok key /\
+       length iv = dem_iv_size d /\ ct = prefix ++ kem ++ DemFrame d key iv p).
+  Proof.
+    intros Ps. pose proof (supported_dem _ _ _ Ps) as Ds.
+    unfold ecies_decrypt. rewrite Ps. cbn [negb]. split.
+    - destruct (Nat.ltb_spec (length ct) (length prefix)) as [|Lc]; [discriminate|].
+      destruct (slice_split (length prefix) ct Lc) as (pf & rest & -> & Lpf & S1 & S2).
+      rewrite S1, S2. cbn [bind].
+      destruct (beq prefix pf) eqn:E; [|discriminate]. apply beq_eq in E. subst pf. cbn [negb].
+      unfold ecies_raw_decrypt. intros H. inv_bind H. rename v into hs.
+      destruct (Nat.ltb_spec (length rest) hs) as [|Lr]; [discriminate|].
+      destruct (slice_split hs rest Lr) as (kem & body & -> & Lk & S3 & S4).
+      rewrite S3, S4 in Hb. cbn [bind] in Hb. inv_bind Hb. rename v into key.
+      destruct (decapsulate_shape _ _ _ _ _ _ _ _ _ Hba) as [Lkey _].
+      apply (dem_decrypt_iff _ _ _ _ Lkey Ds) in Hbb. destruct Hbb as (iv & Liv & ->).
+      exists kem, key, iv. subst hs. auto.
+    - intros (kem & key & iv & Hs & Hd & Liv & ->).
+      destruct (Nat.ltb_spec (length (prefix ++ kem ++ DemFrame d key iv p)) (length prefix)) as [Hl|_];
+        [rewrite app_length in Hl; lia|].
+      rewrite slice_head, slice_tail. cbn [bind]. rewrite beq_refl. cbn [negb].
+      unfold ecies_raw_decrypt. rewrite Hs. cbn [bind].
+      destruct (Nat.ltb_spec (length (kem ++ DemFrame d key iv p)) (length kem)) as [Hl|_];
+        [rewrite app_length in Hl; lia|].
+      rewrite slice_head, slice_tail. cbn [bind]. rewrite Hd. cbn [bind].
+      destruct (decapsulate_shape _ _ _ _ _ _ _ _ _ Hd) as [Lkey _].
+      apply (dem_decrypt_iff _ _ _ _ Lkey Ds). exists iv. auto.
+  Qed.
+
+  (* ---- symbolic binding ---- *)
+  Definition hkdf_collision : Prop :=
+    exists h ikm salt info ikm' salt' info' n, (ikm <> ikm' \/ salt <> salt' \/ info <> info') /\
+      hkdf h ikm salt info n = hkdf h ikm' salt' info' n.
+  (* the same DEM ciphertext under two different DEM keys *)
+  Definition dem_key_collision : Prop :=
+    exists d key key' iv iv' p p', key <> key' /\ DemFrame d key iv p = DemFrame d key' iv' p'.
+
+  (* change the KEM bytes and/or the info, leave the DEM ciphertext *)
+  Theorem ecies_binding_kem_info c h f d salt prefix skR pkR eph iv info pt ct kem body kem' info' p' :
+    ec_pub c skR = Some pkR ->
+    Encrypt c h f d salt prefix pkR eph iv info pt = Ok ct ->
+    ct = prefix ++ kem ++ body -> encoding_size c f = Ok (length kem) -> length kem' = length kem ->
+    (kem' <> kem \/ info' <> info) ->
+    Decrypt c h f d salt prefix skR (prefix ++ kem' ++ body) info' = Ok p' ->
+    hkdf_collision \/ dem_key_collision.
+  Proof.
+    intros Hpub Henc Hct Hs Lk' Hne Hdec.
+    destruct (ecies_encrypt_shape _ _ _ _ _ _ _ _ _ _ _ _ _ Hpub Henc) as (kem0 & key & Hs0 & Hd & Ps & Hct0).
+    rewrite Hct in Hct0. apply app_inv_head in Hct0.
+    apply app_inv_length in Hct0; [|congruence]. destruct Hct0 as [<- Hbody].
+    apply (ecies_decrypt_iff _ _ _ _ _ _ _ _ _ _ Ps) in Hdec.
+    destruct Hdec as (kem1 & key' & iv' & Hs1 & Hd' & Liv' & Hct1).
+    apply app_inv_head in Hct1. apply app_inv_length in Hct1; [|congruence]. destruct Hct1 as [<- Hbody'].
+    rewrite Hbody in Hbody'.
+    destruct (bytes_eq_dec key key') as [Ek|Nk]; [|right; exists d, key, key', iv, iv', pt, p'; auto].
+    subst key'. left.
+    destruct (decapsulate_shape _ _ _ _ _ _ _ _ _ Hd) as [_ (s1 & E1)].
+    destruct (decapsulate_shape _ _ _ _ _ _ _ _ _ Hd') as [_ (s2 & E2)].
+    rewrite E1 in E2.
+    destruct (bytes_eq_dec info info') as [Ei|Ni].
+    - destruct Hne as [Hne|Hne]; [|congruence].
+      exists h, (kem ++ s1), (effective_salt h salt), info, (kem' ++ s2), (effective_salt h salt), info', (dem_key_size d).
+      split; [|exact E2]. left. intros E. apply app_inv_length in E; [|congruence]. destruct E. congruence.
+    - exists h, (kem ++ s1), (effective_salt h salt), info, (kem' ++ s2), (effective_salt h salt), info', (dem_key_size d).
+      split; [|exact E2]. right; right. exact Ni.
+  Qed.
+
+  (* the recipient can recompute the sender's ciphertext from the KEM bytes and the DEM IV it carries *)
+  Theorem ecies_recompute_eq c h f d salt prefix skR pkR eph iv info pt ct :
+    ec_pub c skR = Some pkR -> length iv = dem_iv_size d ->
+    Encrypt c h f d salt prefix pkR eph iv info pt = Ok ct ->
+    Recompute c h f d salt prefix skR ct info pt = Ok ct.
+  Proof.
+    intros Hpub Liv H. unfold ecies_encrypt in H.
+    destruct (primitive_supported c f d) eqn:Ps; [|discriminate]. cbn [negb] in H.
+    inv_bind H. rename v into raw. injection Hb as <-.
+    unfold ecies_raw_encrypt in Ha. inv_bind Ha. destruct v as [kem key]. inv_bind Hab. rename v into body.
+    injection Habb as <-.
+    destruct (ecies_kem_law ec_dh ec_pub ec_oncurve ec_decompress hkdf ec_dh_comm ec_pub_shape ec_decompress_compress
+                _ _ _ _ _ _ _ _ _ _ _ Hpub Haa) as [Hd Hs].
+    unfold ecies_recompute. rewrite Hs. cbn [bind]. rewrite slice_mid. cbn [bind].
+    assert (Eb : exists rest, body = iv ++ rest).
+    { apply dem_encrypt_frame in Haba. destruct Haba as (-> & _ & Ds). unfold dem_frame.
+      destruct d; try discriminate; simpl in Liv.
+      - eexists; reflexivity.
+      - eexists; reflexivity.
+      - destruct iv; [|discriminate]. eexists; reflexivity.
+      - rewrite <- app_assoc. eexists; reflexivity.
+      - rewrite <- app_assoc. eexists; reflexivity. }
+    destruct Eb as (rest & Eb). rewrite Eb. rewrite <- Liv.
+    replace (prefix ++ kem ++ iv ++ rest) with ((prefix ++ kem) ++ iv ++ rest) by (rewrite <- app_assoc; reflexivity).
+    replace (length prefix + length kem)%nat with (length (prefix ++ kem)) by apply app_length.
+    rewrite slice_mid. cbn [bind]. rewrite Hd. cbn [bind]. rewrite <- Eb. rewrite Haba. cbn [bind].
+    rewrite <- app_assoc. reflexivity.
+  Qed.
+End EciesAcceptance.
+
+(* ------------------------------------------------------------------ *)
 (* a toy instance of the oracles: the laws are jointly satisfiable     *)
 (* ------------------------------------------------------------------ *)
 Definition toy_ec_dh (c : curve) (a B : bytes) : option bytes := Some [7].
@@ -390,3 +673,14 @@ Lemma toy_hmac_len k m : length (toy_hmac k m) = 32%nat.
 Proof. apply zeros_length. Qed.
 Lemma toy_siv_open_seal k ad p : toy_siv_open k ad (toy_siv_seal k ad p) = Some p.
 Proof. reflexivity. Qed.
+Lemma toy_gcm_open_sound k iv ad c p : toy_gcm_open k iv ad c = Some p -> c = toy_gcm_seal k iv ad p.
+Proof.
+  unfold toy_gcm_open, toy_gcm_seal.
+  destruct (Nat.leb 16 (length c) && beq (skipn (length c - 16) c) (firstn 16 (k ++ zeros 16)))%bool eqn:E; [|discriminate].
+  apply andb_true_iff in E. destruct E as [_ E]. apply beq_eq in E.
+  intros H. injection H as <-. rewrite <- E. symmetry. apply firstn_skipn.
+Qed.
+Lemma toy_siv_open_sound k ad c p : toy_siv_open k ad c = Some p -> c = toy_siv_seal k ad p.
+Proof. unfold toy_siv_open, toy_siv_seal. congruence. Qed.
+Lemma toy_hkdf_len h ikm salt info n : length (toy_hkdf h ikm salt info n) = n.
+Proof. apply repeat_length. Qed.
